@@ -130,7 +130,9 @@ def grep_forbidden(prop=None):
     if prop is None:
         files = lean_sources()
     else:
-        files = [os.path.join(LEAN, *m.split(".")) + ".lean" for m in import_closure("Props." + prop)]
+        mods = set(import_closure("Props." + prop)) | set(import_closure("Family." + prop)) | \
+            (set(import_closure("Gen.SchemaBuilds")) if prop in FAMILY_BUILDS else set())
+        files = [os.path.join(LEAN, *m.split(".")) + ".lean" for m in sorted(mods)]
     for p in files:
         src = _strip_comments(open(p).read())
         for i, line in enumerate(src.splitlines()):
@@ -139,18 +141,41 @@ def grep_forbidden(prop=None):
     return hits
 
 
+_LOCK_DEPTH = 0
+
+
+class lean_lock:
+    """the file lock around everything that writes under lean/ (generated sources, lake build, audits that read the
+    oleans); re-entrant within the process (checks of different properties may run concurrently)"""
+
+    def __enter__(self):
+        global _LOCK_DEPTH
+        if _LOCK_DEPTH == 0:
+            os.makedirs(os.path.join(LEAN, ".lake"), exist_ok=True)
+            self.f = open(os.path.join(LEAN, ".lake", ".verif.lock"), "w")
+            fcntl.flock(self.f, fcntl.LOCK_EX)
+        else:
+            self.f = None
+        _LOCK_DEPTH += 1
+        return self
+
+    def __exit__(self, *a):
+        global _LOCK_DEPTH
+        _LOCK_DEPTH -= 1
+        if self.f is not None:
+            self.f.close()
+
+
 def build(targets):
-    """lake build under a file lock (checks of different properties may run concurrently)"""
-    os.makedirs(os.path.join(LEAN, ".lake"), exist_ok=True)
-    with open(os.path.join(LEAN, ".lake", ".verif.lock"), "w") as lk:
-        fcntl.flock(lk, fcntl.LOCK_EX)
+    """lake build under the file lock"""
+    with lean_lock():
         t0 = time.time()
         p = subprocess.run(["lake", "build", *targets], cwd=LEAN, capture_output=True, text=True)
         return p.returncode == 0, (p.stdout + p.stderr)[-6000:], time.time() - t0
 
 
-def theorem_names(prop):
-    path = os.path.join(LEAN, "Props", prop + ".lean")
+def theorem_names(prop, path=None):
+    path = path or os.path.join(LEAN, "Props", prop + ".lean")
     if not os.path.exists(path):
         return []
     src = _strip_comments(open(path).read())
@@ -159,14 +184,14 @@ def theorem_names(prop):
     return [prefix + m for m in re.findall(r"^\s*theorem\s+([^\s:({\[]+)", src, flags=re.M)]
 
 
-def audit(prop):
-    """returns (obligations, discharged, details) for the theorems of Props/<prop>.lean"""
-    names = theorem_names(prop)
+def audit_names(modules, names, tag):
+    """`#print axioms` of the named theorems (after importing the modules): (obligations, discharged, details)"""
     if not names:
         return 0, 0, {"error": "no theorems found"}
-    tmp = os.path.join(LEAN, ".lake", f"audit_{prop}_{os.getpid()}.lean")
+    tmp = os.path.join(LEAN, ".lake", f"audit_{tag}_{os.getpid()}.lean")
     with open(tmp, "w") as f:
-        f.write(f"import Props.{prop}\n")
+        for m in modules:
+            f.write(f"import {m}\n")
         for n in names:
             f.write(f"#print axioms {n}\n")
     p = subprocess.run(["lake", "env", "lean", tmp], cwd=LEAN, capture_output=True, text=True)
@@ -190,6 +215,11 @@ def audit(prop):
     if p.returncode != 0 and ok == len(names):
         details["_stderr"] = out[-500:]
     return len(names), ok, details
+
+
+def audit(prop):
+    """returns (obligations, discharged, details) for the theorems of Props/<prop>.lean"""
+    return audit_names([f"Props.{prop}"], theorem_names(prop), prop)
 
 
 class Driver:
@@ -246,6 +276,7 @@ class Ctx:
         self.audit_details = {}
         self.build_ok = True
         self.build_log = ""
+        self.family = None        # the kernel-checked schema family (family_phase)
         self.driver = Driver()
         self.findings = load_findings()
         from . import cover
@@ -342,6 +373,10 @@ class Ctx:
             broken.append({"obligation": "lake build", "log": self.build_log[-3000:]})
         if self.discharged < self.obligations:
             broken.append({"obligation": "theorems/axiom audit", "details": self.audit_details})
+        if self.family is not None and not self.family.get("ok"):
+            broken.append({"obligation": "the bundled schema family as regenerated Lean data (lean/Gen/Schema*.lean, "
+                                         "lean/Family/%s.lean): construction tie / schema guards / closed corollaries" % self.prop,
+                           "failing": self.family.get("failing"), "log": self.family.get("log", "")[-3000:]})
         forb = grep_forbidden(self.prop)
         if forb:
             broken.append({"obligation": "no sorry/axiom/native_decide in lean/", "hits": forb[:10]})
@@ -391,6 +426,10 @@ class Ctx:
                 ev["coverage"]["schema_guards"] = {i.name: o.get("ok", o) for i, o in zip(named, outs)}
         except Exception as e:  # noqa: BLE001  (measuring only)
             ev["coverage"]["schema_guards"] = {"error": str(e)[:200]}
+        if self.family is not None:
+            # the same guards (and more), no longer measured but proved: kernel evaluation on the schema tables regenerated
+            # from the running library
+            ev["coverage"]["schema_guards_kernel"] = {k: v for k, v in self.family.items() if k != "log"}
         if extra:
             ev["coverage"].update(extra)
         with open(os.path.join(EVIDENCE, self.prop + ".json"), "w") as f:
@@ -456,8 +495,89 @@ def write_replay(prop, obj):
     return path
 
 
+# properties whose statement covers the *construction* of the schemas: their checks also kernel-check
+# `<name>_builds : buildSchema <spec> = .ok <compiled>` for every family schema (lean/Gen/SchemaBuilds/*.lean)
+FAMILY_BUILDS = {"C06", "C07", "C14"}
+
+
+def family_phase(ctx, builds=None):
+    """The bundled schema family as kernel-checked Lean data.  Under the lean lock: regenerate lean/Gen/Schemas.lean,
+    Gen/SchemaFacts/*, Gen/SchemaBuilds/* from the schemas the library under check compiles (harness/translate_schemas.py;
+    byte-identical files are not rewritten, so nothing is rebuilt on an unchanged tree), build the guards (and, for the
+    construction properties, the construction tie) and the closed corollaries lean/Family/<prop>.lean, audit their axioms.
+    A failure is a broken proof obligation: the run goes on (the property's own oracles and ties search for a failing
+    input); `finish` reports it."""
+    from . import translate_schemas as ts
+    if builds is None:
+        builds = ctx.prop in FAMILY_BUILDS
+    fmods = ts.family_modules(ctx.prop)
+    if not fmods and not builds:
+        return            # no theorem of this property carries a schema guard
+    guards = ts.guards_used(ctx.prop)
+    fam = {"ok": False, "checked_by": "Lean kernel (`decide +kernel`) on the generated lean/Gen/Guards/*.lean" +
+           (", lean/Gen/SchemaBuilds/*.lean" if builds else "") + ", regenerated from the schemas the library compiled in this run",
+           "guards_used_by_this_property": guards}
+    ctx.family = fam
+    t0 = time.time()
+    with lean_lock():
+        try:
+            items, changed = ts.regenerate()
+        except Exception as e:  # noqa: BLE001  (the library refused or died on a family spec: nothing to check against)
+            fam["failing"] = ["translator: " + type(e).__name__ + ": " + str(e)[:300]]
+            fam["log"] = traceback.format_exc()[-3000:]
+            ctx.obligations += 1
+            return
+        fam["regenerated_files"] = changed
+        mods = fmods + (["Gen.SchemaBuilds"] if builds else [])
+        ok, log, dt = build(mods)
+        fam["build_s"] = round(dt, 1)
+        ctx.counters["family_build_s"] = round(dt, 1)
+        parsers = "Gen.Parsers" in import_closure("Family." + ctx.prop)
+        names = ts.gen_theorems(items, builds, parsers, guards)
+        if parsers:
+            fam["parser_rules"] = {it[0]: ("rulesOk" if ts.PARSERS.get(it[0]) else "not translated (clear_mark closure)")
+                                   for it in items if it[2]}
+        fnames = []
+        for m in fmods:
+            fnames += theorem_names(ctx.prop, os.path.join(LEAN, *m.split(".")) + ".lean")
+        n_all = len(names) + len(fnames)
+        if ok:
+            n, d, details = audit_names(mods, names + fnames, "family_" + ctx.prop)
+            # the generated per-schema instances are summarised, the hand-written corollaries listed one by one
+            gen_ok = sum(1 for k in names if isinstance(details.get(k), list) and set(details[k]) <= ALLOWED_AXIOMS)
+            what = (["guards " + ", ".join(guards)] if guards else []) + (["construction"] if builds else []) + \
+                (["parser rules"] if parsers else [])
+            ctx.audit_details["Gen.*"] = f"{gen_ok}/{len(names)} generated kernel-checked instances (" + "; ".join(what) + \
+                ") of the family schemas built and audited"
+            for k in fnames:
+                ctx.audit_details[k] = details.get(k, "MISSING")
+            ctx.obligations += n
+            ctx.discharged += d
+            fam["ok"] = d == n
+            if d < n:
+                fam["failing"] = [k for k in names + fnames if not (isinstance(details.get(k), list) and set(details[k]) <= ALLOWED_AXIOMS)]
+        else:
+            ctx.obligations += n_all
+            bad = sorted(set(re.findall(r"error: (\S+\.lean:\d+)", log)))
+            fam["failing"] = sorted(set(ts.describe_error(b) for b in bad)) or ["lake build " + " ".join(mods)]
+            fam["log"] = log
+            ctx.audit_details["Gen.*"] = "build failed: " + "; ".join(fam["failing"])[:600]
+        fam["schemas"] = ts.guard_table(items, guards)
+        fam["closed_corollaries"] = fnames
+        if builds:
+            fam["construction"] = {it[0]: "buildSchema <spec> = .ok <compiled>; compileSchema <spec> <automata> = .ok <compiled>"
+                                   for it in items}
+        fam["wall_s"] = round(time.time() - t0, 1)
+
+
 def lean_phase(ctx, extra_targets=()):
     """build + audit; fills ctx.obligations/discharged"""
+    _lean_phase(ctx, extra_targets)      # (locks around its `lake build` only: the thorough tier's leanchecker is slow)
+    if ctx.build_ok:
+        family_phase(ctx)                # regenerate + build + audit under one lock: lean/Gen is shared by concurrent checks
+
+
+def _lean_phase(ctx, extra_targets=()):
     ok, log, dt = build(["PM", "pmdriver", f"Props.{ctx.prop}", *extra_targets])
     ctx.build_ok = ok
     ctx.build_log = log
